@@ -1,6 +1,6 @@
 /-
   C20 — source ties for the basic benchmark functions of `benchmarks/_optproblems.py` that are pure
-  elementwise numpy code: `OneMax.f`, `Sphere.f`, `Schwefe1_2.f`, `Rosenbrock.f`, `Rastrigin.f`, `Griewank.f`, `HighConditionedElliptic.f`.
+  elementwise numpy code: `OneMax.f`, `Sphere.f`, `Schwefe1_2.f`, `Rosenbrock.f`, `Rastrigin.f`, `Griewank.f`, `HighConditionedElliptic.f`, `Ackley.f`.
   `TFV/Generated/Src/Bench_*_f.lean` are re-translated from /repo on every run (harness/extract/np2lean.py, floats
   read as field elements, `cos(2πa)` a function parameter); on every rectangular population they compute, row by
   row, the functions of `TFV.Model.Bench` whose lower bounds and optima the C20 theorems prove.
@@ -14,8 +14,10 @@ import TFV.Generated.Src.Bench_Rosenbrock_f
 import TFV.Generated.Src.Bench_Rastrigin_f
 import TFV.Generated.Src.Bench_Griewank_f
 import TFV.Generated.Src.Bench_Elliptic_f
+import TFV.Generated.Src.Bench_Ackley_f
 import TFV.Properties.Bench
 import Mathlib.Tactic.Ring
+import Mathlib.Tactic.NormNum
 
 namespace TFV.Properties.Src.BenchKernels
 open TFV.NpQ TFV.Bench TFV.Generated.Src
@@ -218,5 +220,64 @@ theorem C20_src_elliptic_optimum (cw : Nat → Nat → Rat) (hc : ∀ D j, 0 < c
     rw [this]
 
 example : Bench_Elliptic_f (fun _ j => if j = 0 then 1 else 1000000) { ncols := 2, rows := [[0, 0], [3, 2]] } = some [0, 4000009] := by decide +kernel
+
+/-- `Ackley.f` = `ackley E R cs 20 (1/5)` on every row of a rectangular population, `E`, `R`, `cs` standing for `np.exp`, `np.sqrt` and
+    `z ↦ cos(2πz)` -/
+theorem C20_src_ackley (E R cs : Rat → Rat) (m : Mat) (hwf : m.WF) :
+    Bench_Ackley_f E R cs m = some (m.rows.map (ackley E R cs 20 (1 / 5))) := by
+  unfold Bench_Ackley_f
+  simp only [NpQ.vzip, sumRows, NpQ.map, List.length_map, if_true, List.map_map, bind, Option.bind, pure]
+  congr 1
+  rw [zipWith_rows_vec]
+  simp only [List.map_map]
+  apply List.map_congr_left
+  intro r hr
+  have hl : (m.ncols : Rat) = (r.length : Rat) := by rw [hwf r hr]
+  have h1 : r.map (fun a => a ^ 2) = r.map fun z => z * z := by
+    apply List.map_congr_left
+    intro a _
+    ring
+  simp only [Function.comp, ackley, Bench.sum, hl, h1]
+  have h2 : (1 : Rat) / (r.length : Rat) * List.foldr (· + ·) 0 (r.map cs) = List.foldr (· + ·) 0 (r.map cs) / (r.length : Rat) := by ring
+  rw [h2]
+  ring
+
+/-- bound and optimum read off the TRANSLATED source of `Ackley.f`, for any monotone `E` with `E 0 = 1`, any `R` that is non-negative on
+    non-negative arguments with `R 0 = 0`, any `cs ≤ 1` with `cs 0 = 1`: on a rectangular population with at least one column every
+    returned value is non-negative, and zero rows are mapped to zeros -/
+theorem C20_src_ackley_optimum (E R cs : Rat → Rat)
+    (hEmono : ∀ u v, u ≤ v → E u ≤ E v) (hE0 : E 0 = 1) (hR : ∀ u, 0 ≤ u → 0 ≤ R u) (hR0 : R 0 = 0)
+    (hc : ∀ z, cs z ≤ 1) (hc0 : cs 0 = 1) (m : Mat) (hwf : m.WF) (hD : 0 < m.ncols) :
+    (∃ ys, Bench_Ackley_f E R cs m = some ys ∧ ys.length = m.rows.length ∧ ∀ y ∈ ys, 0 ≤ y) ∧
+    ∀ k D : Nat, 0 < D →
+      Bench_Ackley_f E R cs { ncols := D, rows := List.replicate k (List.replicate D 0) } = some (List.replicate k 0) := by
+  refine ⟨⟨_, C20_src_ackley E R cs m hwf, by simp, ?_⟩, ?_⟩
+  · intro y hy
+    obtain ⟨r, hr, rfl⟩ := List.mem_map.mp hy
+    have hne : r ≠ [] := by
+      intro h
+      have := hwf r hr
+      rw [h] at this
+      simp at this
+      omega
+    exact (TFV.Bench.C20_ackley E R cs 20 (1 / 5) (by norm_num) (by norm_num) hEmono hE0 hR hR0 hc hc0 r hne).1
+  · intro k D hD'
+    have hwf' : ({ ncols := D, rows := List.replicate k (List.replicate D 0) } : Mat).WF := by
+      intro r hr
+      rw [List.eq_of_mem_replicate hr]
+      simp
+    rw [C20_src_ackley E R cs _ hwf']
+    simp only [List.map_replicate]
+    have hne : List.replicate D (0 : Rat) ≠ [] := by
+      intro h
+      have := congrArg List.length h
+      simp at this
+      omega
+    have := (TFV.Bench.C20_ackley E R cs 20 (1 / 5) (by norm_num) (by norm_num) hEmono hE0 hR hR0 hc hc0 (List.replicate D 0) hne).2
+    simp only [List.length_replicate] at this
+    rw [this]
+
+example : Bench_Ackley_f (fun u => if u < 0 then 0 else 1) (fun u => u) (fun z => if z = 0 then 1 else 0) { ncols := 2, rows := [[0, 0], [3, 4]] }
+    = some [0, 20] := by decide +kernel
 
 end TFV.Properties.Src.BenchKernels
